@@ -338,3 +338,55 @@ NEUTRAL += [
     {"id": "n-lt-nested-if", "props": ["C17"],
      "edits": [(TSH, "            if ((m_secs == rhs.m_secs) && (m_ticks < rhs.m_ticks))\n                return true;\n\n            return false;\n        }\n\n        /**\n         * @brief Operator `smaller or equal than`", "            if (m_secs == rhs.m_secs) {\n                if (m_ticks < rhs.m_ticks)\n                    return true;\n            }\n\n            return false;\n        }\n\n        /**\n         * @brief Operator `smaller or equal than`")]},
 ]
+
+MUTANTS += [
+    # ---------------------------------------------------------------- C13
+    m("c13-revert-f11", "C13", "R13.5", [(WH, "            if (value.type() != typeid(std::string))\n                throw CborOutputException(\"New output of a file name writer has to be given as std::string!\");", "            if (value.type() != typeid(std::string))\n                return;")], "silent no-op rotation (reverted F11)"),
+    m("c13-clear-on-rotate", "C13", "R13.1", [(CH, "            if (export_current_block)\n                written += write_block();\n", "            if (export_current_block)\n                written += write_block();\n            else\n                m_block.clear();\n")], "rotation without export clears the buffered block"),
+    m("c13-no-flush", "C13", "R13.2", [(ENH, "            flush_buffer();\n            m_cos->rotate_output(out);", "            m_cos->rotate_output(out);\n            flush_buffer();")], "staged bytes go to the new output"),
+    m("c13-gzip-no-close", "C13", "R13.3", [(WH, "        void rotate_output(const boost::any& value) override {\n            close();\n            m_writer->rotate_output(value);\n            open();\n        }\n\n        private:\n        /**\n         * @brief Open the output with given identifier or check if its valid\n         * @throw CborOutputException if initialization of the output fails\n         */\n        void open() override;\n\n        /**\n         * @brief Close the opened output\n         */\n        void close() override;\n\n        /**\n         * @brief Compress data with GZIP",
+                                             "        void rotate_output(const boost::any& value) override {\n            m_writer->rotate_output(value);\n            close();\n            open();\n        }\n\n        private:\n        /**\n         * @brief Open the output with given identifier or check if its valid\n         * @throw CborOutputException if initialization of the output fails\n         */\n        void open() override;\n\n        /**\n         * @brief Close the opened output\n         */\n        void close() override;\n\n        /**\n         * @brief Compress data with GZIP")],
+      "gzip trailer written to the new output"),
+    m("c13-leaf-order", "C13", "R13.4", [(WH, "            close();\n            m_value = boost::any_cast<std::string>(value);\n            open();", "            m_value = boost::any_cast<std::string>(value);\n            close();\n            open();")], "old file renamed to the new name"),
+    m("c13-export-always", "C13", "R13.1", [(CH, "            if (export_current_block)\n                written += write_block();", "            written += write_block();")], "rotation always exports the buffered block"),
+    m("c13-counter-not-reset", "C13", "R13.1", [(CH, "            m_encoder.rotate_output(out);\n            m_blocks_written = 0;", "            m_encoder.rotate_output(out);")], "second output gets no header"),
+    # ---------------------------------------------------------------- C14
+    m("c14-revert-f12", "C14", "R14.1", [(WC, "    (void) in_size;\n    constexpr std::size_t size = 16384;\n    uint8_t buff[size];\n\n    // Set output buffer\n    m_gzip.next_out = buff;", "    std::size_t size = in_size + in_size / 3 + 128;\n    uint8_t buff[size];\n\n    // Set output buffer\n    m_gzip.next_out = buff;")], "stack array sized by the chunk (reverted F12)"),
+    m("c14-single-finish", "C14", "R14.2", [(WC, "            while (write_gzip(2048, Z_FINISH) != Z_STREAM_END);\n", "            write_gzip(2048, Z_FINISH);\n")], "gzip close() finishes with a single call"),
+    m("c14-if-not-while", "C14", "R14.2", [(WC, "    while (m_lzma.avail_in > 0) {\n        write_lzma(size, LZMA_RUN);\n    }", "    if (m_lzma.avail_in > 0) {\n        write_lzma(size, LZMA_RUN);\n    }")], "xz write() runs the compressor once"),
+    m("c14-forward-short", "C14", "R14.2", [(WC, "        m_writer->write(reinterpret_cast<const char*>(buff), sizeof(buff) - m_lzma.avail_out);", "        m_writer->write(reinterpret_cast<const char*>(buff), sizeof(buff) - m_lzma.avail_out - 1);")], "last produced byte of every chunk dropped"),
+    m("c14-accept-buf-error", "C14", "R14.3", [(WC, "    if (ret == Z_OK || ret == Z_STREAM_END)", "    if (ret == Z_OK || ret == Z_STREAM_END || ret == Z_BUF_ERROR)")], "Z_BUF_ERROR accepted"),
+    m("c14-zlib-framing", "C14", "R14.4", [(WC, "Z_DEFLATED, 31, 8,", "Z_DEFLATED, 15, 8,")], "zlib instead of gzip framing"),
+    m("c14-no-end", "C14", "R14.2", [(WC, "            while (write_lzma(2048, LZMA_FINISH) != LZMA_STREAM_END);\n            lzma_end(&m_lzma);", "            while (write_lzma(2048, LZMA_FINISH) != LZMA_STREAM_END);")], "encoder not released: close() on rotation runs FINISH on a finished stream"),
+    m("c14-suffix", "C14", "R14.4", [(WH, "m_writer = std::make_unique<Writer<T>>(value, \".xz\");", "m_writer = std::make_unique<Writer<T>>(value, \".gz\");")], "xz output named .gz"),
+    # ---------------------------------------------------------------- C15
+    m("c15-rename-first", "C15", "R15.2", [(WH, "                    m_out.flush();\n                    m_out.close();\n                    if (std::rename(", "                    m_out.flush();\n                    if (std::rename("), (WH, "                        std::cerr << \"Couldn't rename the output file!\" << std::endl;\n", "                        std::cerr << \"Couldn't rename the output file!\" << std::endl;\n                    m_out.close();\n")],
+      "file renamed before it is closed"),
+    m("c15-open-final", "C15", "R15.1", [(WH, "            m_out.open(m_value + m_extension + \".part\");", "            m_out.open(m_value + m_extension);")], "data written directly under the final name"),
+    m("c15-rename-wrong", "C15", "R15.2", [(WH, "(m_value + m_extension).c_str()))", "(m_value).c_str()))")], "renamed to the name without the compression suffix"),
+    m("c15-no-encoder-flush", "C15", "R15.3", [(ENH, "            try {\n                flush_buffer();\n            }\n            catch (std::exception& e) {\n                std::cerr << e.what() << std::endl;\n            }", "")], "~CdnsEncoder does not flush: the closing break never reaches the file"),
+    m("c15-gzip-dtor", "C15", "R15.3", [(WH, "        ~GzipCborOutputWriter() override { close(); }", "        ~GzipCborOutputWriter() override { }")], "gzip trailer never written on destruction"),
+    m("c15-extra-rename", "C15", "R15.1", [(WH, "            m_out.open(m_value + m_extension + \".part\");\n            if (m_out.fail())", "            m_out.open(m_value + m_extension + \".part\");\n            std::rename((m_value + m_extension + \".part\").c_str(), (m_value + m_extension).c_str());\n            if (m_out.fail())")], "file renamed to its final name right after opening"),
+    # ---------------------------------------------------------------- C16
+    m("c16-ignore-write", "C16", "R16.1", [(WH, "            int ret = ::write(m_value, p, size);\n            if (ret != static_cast<int>(size)) {", "            int ret = ::write(m_value, p, size);\n            if (ret < 0 && size == 0) {")], "descriptor writer ignores short writes"),
+    m("c16-swallow-write-block", "C16", "R16.4", [(CH, "            std::size_t written = write_block(m_block);\n            m_block.clear();", "            std::size_t written = 0;\n            try {\n                written = write_block(m_block);\n            }\n            catch (std::exception& e) {\n                std::cerr << e.what() << std::endl;\n            }\n            m_block.clear();")], "write failure swallowed, records dropped"),
+    m("c16-swallow-rotate", "C16", "R16.2", [(CH, "            m_encoder.rotate_output(out);\n            m_blocks_written = 0;", "            try {\n                m_encoder.rotate_output(out);\n            }\n            catch (std::exception& e) {\n                std::cerr << e.what() << std::endl;\n            }\n            m_blocks_written = 0;")], "exporter swallows rotation failures"),
+    m("c16-swallow-flush", "C16", "R16.2", [(EN, "    if (m_p != m_buffer) {\n        m_cos->write(reinterpret_cast<const char*>(m_buffer), m_p - m_buffer);", "    if (m_p != m_buffer) {\n        try {\n            m_cos->write(reinterpret_cast<const char*>(m_buffer), m_p - m_buffer);\n        }\n        catch (std::exception& e) {\n        }")], "flush_buffer drops the bytes of a failed write silently"),
+    # ---------------------------------------------------------------- C18
+    m("c18-revert-f14", "C18", "R18.1", [(MG, "                auto new_index = file_indexes->second.find(block.get_block_parameters_index());\n                if (new_index == file_indexes->second.end())\n                    throw std::runtime_error(\"Unknown block parameters index in a block of \" + input);\n\n                block.m_block_preamble.block_parameters_index = new_index->second;", "                block.m_block_preamble.block_parameters_index = block_indexes[input][block.get_block_parameters_index()];")],
+      "remap through operator[] (reverted F14)"),
+    m("c18-unchecked-iterator", "C18", "R18.1", [(MG, "                if (new_index == file_indexes->second.end())\n                    throw std::runtime_error(\"Unknown block parameters index in a block of \" + input);\n\n", "")], "find() result dereferenced without end() test"),
+    m("c18-remap-late", "C18", "R18.2", [(MG, "                block.m_block_preamble.block_parameters_index = new_index->second;\n\n                writer.write_block(block);", "                writer.write_block(block);\n\n                block.m_block_preamble.block_parameters_index = new_index->second;")], "index remapped after the block was written"),
+    m("c18-count-wrong", "C18", "R18.4", [(IC, "            aec_count += block.get_aec_count();", "            aec_count += block.get_qr_count();")], "address-event total accumulates the Q/R count"),
+    m("c18-version-and", "C18", "R18.3", [(MG, "                if (reader.m_file_preamble.m_major_format_version != file_preamble.m_major_format_version ||\n                    reader.m_file_preamble.m_minor_format_version != file_preamble.m_minor_format_version ||", "                if (reader.m_file_preamble.m_major_format_version != file_preamble.m_major_format_version &&\n                    reader.m_file_preamble.m_minor_format_version != file_preamble.m_minor_format_version ||")], "version check requires major AND minor to differ"),
+    m("c18-try-outside-loop", "C18", "R18.3", [(MG, "    for (auto input: input_files) {\n        // Input files that couldn't be merged in the first pass contribute nothing\n        auto file_indexes = block_indexes.find(input);\n        if (file_indexes == block_indexes.end())\n            continue;\n\n        try {", "    try {\n    for (auto input: input_files) {\n        // Input files that couldn't be merged in the first pass contribute nothing\n        auto file_indexes = block_indexes.find(input);\n        if (file_indexes == block_indexes.end())\n            continue;\n\n        {"),
+                                                (MG, "        catch (std::exception& e) {\n            std::cerr << \"Couldn't merge file \" << input << \"! Reason: \" << e.what() << std::endl;\n        }\n    }\n\n    return 0;", "    }\n    }\n    catch (std::exception& e) {\n        std::cerr << \"Couldn't merge! Reason: \" << e.what() << std::endl;\n    }\n\n    return 0;")],
+      "one unreadable input aborts the merge of all following inputs"),
+    m("c18-label-swap", "C18", "R18.4", [(IC, "                std::cout << \"Address Event Counts: \" << aec_count << std::endl;", "                std::cout << \"Address Event Counts: \" << mm_count << std::endl;")], "total line labelled address events prints the malformed count"),
+]
+NEUTRAL += [
+    {"id": "n-merge-at", "props": ["C18"],
+     "edits": [(MG, "                auto new_index = file_indexes->second.find(block.get_block_parameters_index());\n                if (new_index == file_indexes->second.end())\n                    throw std::runtime_error(\"Unknown block parameters index in a block of \" + input);\n\n                block.m_block_preamble.block_parameters_index = new_index->second;", "                block.m_block_preamble.block_parameters_index = file_indexes->second.at(block.get_block_parameters_index());")]},
+    {"id": "n-close-loop-do", "props": ["C14"],
+     "edits": [(WC, "            while (write_lzma(2048, LZMA_FINISH) != LZMA_STREAM_END);\n", "            while (write_lzma(4096, LZMA_FINISH) != LZMA_STREAM_END) {\n            }\n")]},
+]
